@@ -586,6 +586,19 @@ func genC17(e *emitter, r *rng, tier string) {
 		ns := someNumber(r)
 		b := newScriptBuilder(r, ns)
 		chain := r.intn(9)
+		if r.coin(45) {
+			// what a value can be asserted to must not depend on what has been COMPUTED: read the
+			// Number (to its end, if it has one) before deriving anything
+			switch r.intn(3) {
+			case 0:
+				b.add("at:0:%d", r.pick([]int{0, 5, 400}))
+			case 1:
+				b.add("fwd:0:400")
+			default:
+				b.add("str:0")
+				b.add("at:0:350")
+			}
+		}
 		for j := 0; j < chain; j++ {
 			// chains, not trees: always extend the newest handle
 			h := len(b.handles) - 1
@@ -606,8 +619,13 @@ func genC17(e *emitter, r *rng, tier string) {
 		// the same derivation REPEATED on the same value (and on older ones, between other
 		// derivations): what a value can be asserted to must not depend on what was derived before
 		if chain > 0 && r.coin(60) {
-			views := append([]string(nil), b.stmts...)
-			for k := 0; k < 1+r.intn(4); k++ {
+			var views []string
+			for _, st := range b.stmts {
+				if strings.HasPrefix(st, "ws:") || strings.HasPrefix(st, "we:") {
+					views = append(views, st)
+				}
+			}
+			for k := 0; k < 1+r.intn(4) && len(views) > 0; k++ {
 				st := views[r.intn(len(views))]
 				var hh, xx int
 				if _, err := fmt.Sscanf(strings.SplitN(st, ":", 2)[1], "%d:%d", &hh, &xx); err != nil {
